@@ -61,7 +61,14 @@ theorem stream_roundtrip (cells : List Cell) (rest : Bytes) (hv : ∀ c ∈ cell
     deserializeCellBlocks (cells.flatMap encodeCell ++ rest) cells.length
       = .ok (cells, (cells.flatMap encodeCell).length) := by
   have := deserializeFrom_encoded cells [] rest hv (by simpa using htot)
-  simpa [deserializeCellBlocks] using this
+  have hge := flatMap_encodeCell_length_ge cells
+  have hguard : ¬ (cells.flatMap encodeCell ++ rest).length / minCellLen < cells.length := by
+    rw [List.length_append, Nat.not_lt]
+    apply (Nat.le_div_iff_mul_le (by decide)).mpr
+    rw [Nat.mul_comm]; omega
+  unfold deserializeCellBlocks
+  rw [if_neg hguard]
+  simpa using this
 
 /-- … and so does the independent parser. -/
 theorem stream_roundtrip_kv (cells : List Cell) (rest : Bytes) (hv : ∀ c ∈ cells, c.Valid)
